@@ -12,10 +12,16 @@ META = {
     "property_id": "C20",
     "design_ref": "DESIGN.md section 5, C20",
     "technique": "Coq proof (refinement of the array union-find with path halving to the equivalence closure of the union history; heap-order invariant of the heapq algorithm) + translator-regenerated comparator/plumbing + kernel-checked correspondence batches",
-    "level_text": "Machine-checked Coq theorems about an executable model of unionfind.py and of priority_queue.py "
-                  "(comparator and wrapper regenerated from the source on every run, heapq modelled concretely): the "
-                  "structural invariant and the refinement to the equivalence closure hold for every operation history; "
-                  "the model is tied to the code by kernel-evaluated correspondence batches on generated histories.",
+    "level_text": "Machine-checked Coq theorems (all full, closed under the global context) about an executable model of "
+                  "unionfind.py and priority_queue.py+heapq: for EVERY operation history the structural invariant holds "
+                  "(acyclic parent forest, find never out of fuel, n_comps = #roots, sizes at roots), `connected` is exactly "
+                  "the equivalence closure of the union history, queries never change the partition, component / components / "
+                  "roots / component_mapping / len / n_comps all describe that one partition; for every queue history the "
+                  "pending multiset is exact, pop/get/front give a minimum-priority pending item, emptiness is exact "
+                  "(heap-order invariant of the heapq sift algorithms proved for any strict weak order; the comparator and "
+                  "wrapper plumbing are regenerated from the source on every run and the instance lemmas are re-proved). "
+                  "The hand-written part of the model is tied to the code by kernel-evaluated correspondence batches on "
+                  "generated histories (ints, tuples, strings, mixed; ties, negatives, infinities).",
     "level_note": "Trusted: Coq kernel + vm_compute; the priority_queue translator; the correspondence harness "
                   "(generators, driver canonicalisation, interning of hashable elements as integer codes); CPython's "
                   "heapq is modelled from Lib/heapq.py, dict/list semantics assumed.",
